@@ -1080,7 +1080,7 @@ var c18SlotA = map[string]bool{"LOCALGET": true, "LOCALSET": true, "LOCALZERO": 
 	"LOCALADD": true, "LOCALMUL": true, "LOCALSUB": true, "LOCALDIV": true}
 var c18SlotB = map[string]bool{"LOCALADD": true, "LOCALMUL": true, "LOCALSUB": true, "LOCALDIV": true}
 
-func c18Join(a, b int) int     { return (((a + 32768) & 0xffff) << 16) | ((b + 32768) & 0xffff) }
+func c18Join(a, b int) int      { return (((a + 32768) & 0xffff) << 16) | ((b + 32768) & 0xffff) }
 func c18Split(v int) (int, int) { return ((v >> 16) & 0xffff) - 32768, (v & 0xffff) - 32768 }
 
 // shiftCode renumbers the top-level slots of a chunk's code by base (function bodies keep their own frame)
